@@ -12,3 +12,5 @@ func (c *channel) vpPoll() bool                              { return false }
 func (c *channel) verifSelectReady(ctx context.Context) bool { return true }
 func (c *channel) verifLockFree() bool                       { return true }
 func (c *channel) vpWait(point string, signal chan struct{}) {}
+
+func verifYield(point string, enabled func() bool) {}
